@@ -14,9 +14,40 @@ import (
 	"golang.org/x/crypto/ocsp"
 )
 
+// decoyDate returns a date for the fields of an object that must NOT decide effectiveness (a certificate's notAfter,
+// a CRL's nextUpdate, an OCSP response's thisUpdate and producedAt): always on the other side of the usual windows
+// from the deciding date, or an extreme.
+func decoyDate(t time.Time, salt int) time.Time {
+	early := time.Date(1990, 1, 1, 0, 0, 0, 0, time.UTC)
+	late := time.Date(2024, 6, 1, 12, 0, 0, 0, time.UTC)
+	switch salt % 4 {
+	case 0:
+		if t.IsZero() || t.Before(time.Date(2015, 1, 1, 0, 0, 0, 0, time.UTC)) {
+			return late
+		}
+		return early
+	case 1:
+		return time.Time{}
+	case 2:
+		return time.Date(9999, 12, 31, 23, 59, 59, 0, time.UTC)
+	}
+	if t.IsZero() {
+		return late
+	}
+	return t.AddDate(0, 0, 400)
+}
+
+func decoyCRL(t time.Time, salt int) *x509.RevocationList {
+	return &x509.RevocationList{ThisUpdate: t, NextUpdate: decoyDate(t, salt)}
+}
+
+func decoyOCSP(t time.Time, salt int) *ocsp.Response {
+	return &ocsp.Response{NextUpdate: t, ThisUpdate: decoyDate(t, salt), ProducedAt: decoyDate(t, salt+1)}
+}
+
 // scope objects: one certificate struct per (server-auth, email, code-signing) combination
 func scopeCert(sa, em, cs bool, nb time.Time) *x509.Certificate {
-	c := &x509.Certificate{NotBefore: nb}
+	c := &x509.Certificate{NotBefore: nb, NotAfter: decoyDate(nb, int(nb.Unix()&3))}
 	if sa {
 		c.ExtKeyUsage = append(c.ExtKeyUsage, x509.ExtKeyUsageServerAuth)
 	} else {
@@ -72,10 +103,10 @@ func runOne(kind string, s *Script, cfg lint.Configuration, c *x509.Certificate,
 		exec = func() Obs { return observe(func() *lint.LintResult { return l.Execute(c, cfg) }) }
 	case "crl":
 		l := s.crlLint(&log)
-		exec = func() Obs { return observe(func() *lint.LintResult { return l.Execute(&x509.RevocationList{ThisUpdate: nb}, cfg) }) }
+		exec = func() Obs { return observe(func() *lint.LintResult { return l.Execute(decoyCRL(nb, int(nb.Unix()&3)), cfg) }) }
 	case "ocsp":
 		l := s.ocspLint(&log)
-		exec = func() Obs { return observe(func() *lint.LintResult { return l.Execute(&ocsp.Response{NextUpdate: nb}, cfg) }) }
+		exec = func() Obs { return observe(func() *lint.LintResult { return l.Execute(decoyOCSP(nb, int(nb.Unix()&3)), cfg) }) }
 	}
 	o = exec()
 	first := append([]int{}, log...)
@@ -208,13 +239,14 @@ func genWindow(out *Output, rng *Rng, nRandom int, pairStride int) {
 		k := kinds[rng.Intn(3)]
 		md := lint.LintMetadata{EffectiveDate: eff, IneffectiveDate: ineff}
 		var got bool
+		salt := rng.Intn(4)
 		switch k {
 		case "cert":
-			got = (&lint.CertificateLint{LintMetadata: md}).CheckEffective(&x509.Certificate{NotBefore: t})
+			got = (&lint.CertificateLint{LintMetadata: md}).CheckEffective(&x509.Certificate{NotBefore: t, NotAfter: decoyDate(t, salt)})
 		case "crl":
-			got = (&lint.RevocationListLint{LintMetadata: md}).CheckEffective(&x509.RevocationList{ThisUpdate: t})
+			got = (&lint.RevocationListLint{LintMetadata: md}).CheckEffective(decoyCRL(t, salt))
 		case "ocsp":
-			got = (&lint.OcspResponseLint{LintMetadata: md}).CheckEffective(&ocsp.Response{NextUpdate: t})
+			got = (&lint.OcspResponseLint{LintMetadata: md}).CheckEffective(decoyOCSP(t, salt))
 		}
 		term := fmt.Sprintf("(%s, %s, %s, %s)", instantZ(eff), instantZ(ineff), instantZ(t), cqBool(got))
 		if !seen[term] {
@@ -380,7 +412,7 @@ func genReal(out *Output, rng *Rng, nCerts int, cfg lint.Configuration) {
 	}
 	for _, l := range g.RevocationListLints().Lints() {
 		l := l
-		for _, cc := range corpus.CRLs {
+		for _, cc := range realCRLVariants(corpus) {
 			c := cc.CRL
 			s := abstractReal(l.Name, string(l.Source), l.EffectiveDate, l.IneffectiveDate,
 				func() interface{} { return l.Lint() }, cfg,
@@ -400,7 +432,7 @@ func genReal(out *Output, rng *Rng, nCerts int, cfg lint.Configuration) {
 	}
 	for _, l := range g.OcspResponseLints().Lints() {
 		l := l
-		for _, cc := range corpus.OCSPs {
+		for _, cc := range realOCSPVariants(corpus) {
 			c := cc.Resp
 			s := abstractReal(l.Name, string(l.Source), l.EffectiveDate, l.IneffectiveDate,
 				func() interface{} { return l.Lint() }, cfg,
@@ -563,10 +595,10 @@ func genAll(out *Output, rng *Rng, nRegs int) {
 			o, nilRes = observeRS(func() *zlint.ResultSet { return zlint.LintCertificateEx(c, reg.Registry()) })
 		case "crl":
 			o, nilRes = observeRS(func() *zlint.ResultSet {
-				return zlint.LintRevocationListEx(&x509.RevocationList{ThisUpdate: target}, reg.Registry())
+				return zlint.LintRevocationListEx(decoyCRL(target, int(target.Unix()&3)), reg.Registry())
 			})
 		case "ocsp":
-			o, nilRes = observeRS(func() *zlint.ResultSet { return zlint.LintOcspResponseEx(&ocsp.Response{NextUpdate: target}, reg.Registry()) })
+			o, nilRes = observeRS(func() *zlint.ResultSet { return zlint.LintOcspResponseEx(decoyOCSP(target, int(target.Unix()&3)), reg.Registry()) })
 		}
 		_ = nilRes
 		items := make([]string, len(scripts))
@@ -655,4 +687,39 @@ func reconcile(s *Script, o Obs) {
 			return
 		}
 	}
+}
+
+// realCRLVariants / realOCSPVariants: the corpus objects plus shallow copies whose deciding date is moved before and
+// after every effective date, and whose non-deciding dates are removed or moved the other way (an OCSP response
+// without nextUpdate is a legal, common object).
+func realCRLVariants(corpus *Corpus) []CorpusCRL {
+	out := append([]CorpusCRL{}, corpus.CRLs...)
+	for i, cc := range corpus.CRLs {
+		if i >= 6 {
+			break
+		}
+		for j, t := range []time.Time{time.Date(1990, 1, 1, 0, 0, 0, 0, time.UTC), time.Date(2031, 1, 1, 0, 0, 0, 0, time.UTC), {}} {
+			cp := *cc.CRL
+			cp.ThisUpdate = t
+			cp.NextUpdate = decoyDate(t, j)
+			out = append(out, CorpusCRL{File: fmt.Sprintf("%s#thisUpdate=%s", cc.File, t.Format("2006-01-02")), CRL: &cp})
+		}
+	}
+	return out
+}
+
+func realOCSPVariants(corpus *Corpus) []CorpusOCSP {
+	out := append([]CorpusOCSP{}, corpus.OCSPs...)
+	for _, cc := range corpus.OCSPs {
+		for j, t := range []time.Time{{}, time.Date(1990, 1, 1, 0, 0, 0, 0, time.UTC), time.Date(2031, 1, 1, 0, 0, 0, 0, time.UTC)} {
+			cp := *cc.Resp
+			cp.NextUpdate = t
+			if j > 0 {
+				cp.ThisUpdate = decoyDate(t, 0)
+				cp.ProducedAt = decoyDate(t, 0)
+			}
+			out = append(out, CorpusOCSP{File: fmt.Sprintf("%s#nextUpdate=%s", cc.File, t.Format("2006-01-02")), Resp: &cp})
+		}
+	}
+	return out
 }
